@@ -15,6 +15,7 @@ macro "prog_simp" "[" ds:Lean.Parser.Tactic.simpLemma,* "]" loc:(Lean.Parser.Tac
     runM_saveMintQ_bind, runM_saveMeltQ_bind, runM_getPending_bind, runM_getProofsUsed_bind, runM_getPendingByQuote_bind,
     runM_getSigs_bind, runM_getIssued_bind, runM_getRedeemed_bind, runM_getMintQuote_bind, runM_getMintQuoteByHash_bind,
     runM_getMeltQuote_bind, runM_getMeltQuoteByReq_bind, runM_getSig_bind, runM_getSeed_bind, runM_effUpdateMintQ_bind,
+    runM_effUpdateMeltQ_bind, runM_effRemovePending_bind,
     runM_lnFeeReserve_bind, runM_lnSendPayment_bind, runM_lnPayPartial_bind, runM_lnOutgoingStatus_bind,
     runM_lnInvoiceStatus_bind, runM_lnCreateInvoice_bind,
     runM_liftE_bind, runM_failOpt_bind, runM_pure_bind, runM_throw_bind, runM_failIf, runM_liftE, runM_failOpt,
@@ -519,6 +520,249 @@ theorem mintTokens_cases (cx : Cx) (qid : Int) (outs : List BMsg) (sig : QSig) (
         simp only [] at h
         cases h
         exact ⟨sigs, rfl, hok⟩
+
+
+/-! ## Melt -/
+
+theorem any_updMeltQ (qs : List MeltQ) (id id' pre : Nat) (st : LQState) :
+    (updMeltQ qs id pre st).any (·.id == id') = qs.any (·.id == id') := by
+  unfold updMeltQ
+  induction qs with
+  | nil => rfl
+  | cons q rest ih =>
+    simp only [List.map_cons, List.any_cons, ih]
+    congr 1
+    split <;> rfl
+
+/-- What a melt's Lightning answers decide (C05's table): first the pay call, then — only if that was neither
+    success nor pending — the extra status lookup. -/
+def meltOutcome (a0 a1 : LnAns) : LQState :=
+  match a0 with
+  | .succ => .paid
+  | .pending => .pending
+  | _ =>
+    match a1 with
+    | .notfound | .notfoundGrpc | .failed => .unpaid
+    | .succ => .paid
+    | _ => .pending
+
+/-- Tables after the payment switch of a melt, starting from the locked state `dbL`. -/
+def tailDb (dbL : DB) (q : MeltQ) (ps : List Proof) (pre : Nat) : LQState → DB
+  | .pending => dbL
+  | .paid => { dbL with pending := dbL.pending.filter (fun r => !(ps.map (·.secret)).contains r.y),
+                        spent := dbL.spent ++ ps.map Proof.row,
+                        meltQ := updMeltQ dbL.meltQ q.id pre .paid }
+  | .unpaid => { dbL with pending := dbL.pending.filter (fun r => !(ps.map (·.secret)).contains r.y),
+                          meltQ := updMeltQ dbL.meltQ q.id 0 .unpaid }
+
+def tailQuote (q : MeltQ) : LQState → MeltQ
+  | .pending => q
+  | .paid => { q with state := .paid, preimage := q.hash + 1 }
+  | .unpaid => { q with state := .unpaid }
+
+theorem runM_settleProofs_bind {β : Type} (ps : List Proof) (f : Unit → PM β) (db : DB) (ln : LN) :
+    runM (settleProofs ps >>= f) (db, ln) =
+      match insertRows db.spent (ps.map Proof.row) with
+      | some t => runM (f ()) ({ db with pending := db.pending.filter (fun r => !(ps.map (·.secret)).contains r.y), spent := t }, ln)
+      | none => (({ db with pending := db.pending.filter (fun r => !(ps.map (·.secret)).contains r.y) }, ln), .error (1, "db")) := by
+  rw [runM_bind]
+  simp only [settleProofs]
+  prog_simp [runM_pure]
+  cases insertRows db.spent (ps.map Proof.row) <;> rfl
+
+theorem meltAfterPay_runM (q : MeltQ) (ps : List Proof) (a0 : LnAns) (dbL : DB) (ln : LN)
+    (hany : dbL.meltQ.any (·.id == q.id) = true)
+    (hsp : insertRows dbL.spent (ps.map Proof.row) = some (dbL.spent ++ ps.map Proof.row)) :
+    (runM (meltAfterPay q ps a0) (dbL, ln)).1.1 = tailDb dbL q ps (q.hash + 1) (meltOutcome a0 (popScript ln).2) ∧
+    (runM (meltAfterPay q ps a0) (dbL, ln)).2 = .ok (tailQuote q (meltOutcome a0 (popScript ln).2)) := by
+  cases a0 <;> simp only [meltAfterPay]
+  case succ =>
+    prog_simp [runM_settleProofs_bind]
+    simp only [hsp, any_updMeltQ, hany, if_true]
+    exact ⟨rfl, rfl⟩
+  case pending => exact ⟨rfl, rfl⟩
+  all_goals
+    prog_simp [runM_pure]
+    cases (popScript ln).2 <;> simp only [meltOutcome, tailDb, tailQuote]
+    all_goals first
+      | exact ⟨rfl, rfl⟩
+      | (prog_simp [runM_settleProofs_bind]
+         simp only [hsp, any_updMeltQ, hany, if_true]
+         first | exact ⟨rfl, rfl⟩ | trivial | (constructor <;> first | rfl | trivial))
+
+theorem meltInternal_runM (q : MeltQ) (ps : List Proof) (mq : MintQ) (dbL : DB) (ln : LN)
+    (hany : dbL.meltQ.any (·.id == q.id) = true) (hmq : dbL.mintQ.any (·.id == mq.id) = true)
+    (hsp : insertRows dbL.spent (ps.map Proof.row) = some (dbL.spent ++ ps.map Proof.row)) :
+    ((lnInvStatus ln mq.hash).2 = none ∧
+      (runM (meltInternal q ps mq) (dbL, ln)).1.1 = tailDb dbL q ps 0 .unpaid ∧
+      (runM (meltInternal q ps mq) (dbL, ln)).2 = .error (2, "ln")) ∨
+    ((lnInvStatus ln mq.hash).2 ≠ none ∧
+      (runM (meltInternal q ps mq) (dbL, ln)).1.1 =
+        { tailDb dbL q ps (mq.hash + 1) .paid with mintQ := updMintQ dbL.mintQ mq.id .paid } ∧
+      (runM (meltInternal q ps mq) (dbL, ln)).2 = .ok { q with state := .paid, preimage := mq.hash + 1 }) := by
+  simp only [meltInternal]
+  prog_simp [runM_pure]
+  cases hst : (lnInvStatus ln mq.hash).2 with
+  | none =>
+    left
+    simp only [hany, if_true]
+    prog_simp [runM_pure]
+    simp only [hany, if_true]
+    first | exact ⟨trivial, rfl, rfl⟩ | trivial | (refine ⟨?_, ?_, ?_⟩ <;> first | rfl | trivial)
+  | some b =>
+    right
+    simp only []
+    prog_simp [runM_pure]
+    simp only [hany, any_updMeltQ, hmq, hsp, if_true, tailDb]
+    first | exact ⟨by simp, rfl, rfl⟩ | trivial | (refine ⟨?_, ?_, ?_⟩ <;> first | rfl | trivial | simp)
+
+
+theorem dbGetMeltQ_ok {db : DB} {qid : Int} {q : MeltQ} (h : dbGetMeltQ db qid = .ok q) :
+    q ∈ db.meltQ ∧ (qid = (q.id : Int)) ∧ db.meltQ.any (·.id == q.id) = true := by
+  unfold dbGetMeltQ at h
+  split at h
+  · rename_i q' hf
+    injection h with h; subst h
+    have hm := List.mem_of_find?_eq_some hf
+    have hp := List.find?_some hf
+    refine ⟨hm, by simpa [intIs] using hp, ?_⟩
+    simp only [List.any_eq_true]; exact ⟨q', hm, by simp⟩
+  · cases h
+
+theorem gateAll_not_high {mem : Mem} {ps : List Proof} (h : gateAll mem ps = .ok ()) :
+    ∀ r ∈ ps.map Proof.row, high r.amount = false := by
+  intro r hr
+  obtain ⟨p, hp, rfl⟩ := List.mem_map.1 hr
+  obtain ⟨_, _, _, _, hk, _⟩ := gate_ok (gateAll_ok h p hp)
+  exact isKeyAmount_not_high hk
+
+
+def lockRows (q : MeltQ) (ps : List Proof) : List PRow := (ps.map Proof.row).map (fun r => { r with quote := q.id })
+
+/-- Tables right after a melt locked its inputs and set the quote PENDING. -/
+def lockedDb (db : DB) (q : MeltQ) (ps : List Proof) : DB :=
+  { db with pending := db.pending ++ lockRows q ps, meltQ := updMeltQ db.meltQ q.id 0 .pending }
+
+/-- First and second scripted Lightning answer. -/
+def ans0 (ln : LN) : LnAns := (popScript ln).2
+def ans1 (ln : LN) : LnAns := (popScript (popScript ln).1).2
+
+theorem popScript_lnPop (ln : LN) (c : LnAns → LnCall) : (popScript (lnPop ln c)).2 = ans1 ln := by
+  obtain ⟨inv, script, f1, f2, fp, calls⟩ := ln
+  cases script with
+  | nil => rfl
+  | cons a rest => cases rest <;> rfl
+
+theorem dbGetMintQByHash_upd (db : DB) (p : List PRow) (mq : List MeltQ) (h : Nat) :
+    dbGetMintQByHash { db with pending := p, meltQ := mq } h = dbGetMintQByHash db h := rfl
+
+theorem dbGetMintQByHash_ok {db : DB} {h : Nat} {q : MintQ} (hq : dbGetMintQByHash db h = .ok q) :
+    q ∈ db.mintQ ∧ q.hash = h ∧ db.mintQ.any (·.id == q.id) = true := by
+  unfold dbGetMintQByHash at hq
+  split at hq
+  · rename_i q' hf
+    injection hq with hq; subst hq
+    have hm := List.mem_of_find?_eq_some hf
+    have hp := List.find?_some hf
+    refine ⟨hm, by simpa using hp, ?_⟩
+    simp only [List.any_eq_true]; exact ⟨q', hm, by simp⟩
+  · cases hq
+
+/-- A melt that passed validation. -/
+structure MeltAccepted (cx : Cx) (qid : Int) (ps : List Proof) (s : DL) (q : MeltQ) : Prop where
+  quote : dbGetMeltQ s.1 qid = .ok q
+  unpaid : q.state = .unpaid
+  verified : verifySpec cx ps s.1 = .ok ()
+  enough : ¬ (amountWrap (ps.map (·.amount)) < q.amount + q.feeReserve + transactionFees cx.mem ps)
+  noSigAll : proofsSigAll ps = false
+  distinct : (ps.map (·.secret)).Nodup
+
+theorem melt_cases (cx : Cx) (qid : Int) (ps : List Proof) (s s' : DL) (r : Except E MeltQ)
+    (h : runM (meltTokens cx qid ps) s = (s', r)) :
+    (∃ e, r = .error e ∧ s' = s) ∨
+    (∃ q, MeltAccepted cx qid ps s q ∧
+      ((-- paid over Lightning: the outcome is the table `meltOutcome` of the two scripted answers
+        (∃ e, dbGetMintQByHash s.1 q.hash = .error e) ∧
+        r = .ok (tailQuote { q with state := .pending } (meltOutcome (ans0 s.2) (ans1 s.2))) ∧
+        s'.1 = tailDb (lockedDb s.1 q ps) { q with state := .pending } ps (q.hash + 1) (meltOutcome (ans0 s.2) (ans1 s.2))) ∨
+       (-- settled internally against a mint quote of this mint
+        ∃ mq, dbGetMintQByHash s.1 q.hash = .ok mq ∧
+          ((r = .ok { q with state := .paid, preimage := mq.hash + 1 } ∧
+            s'.1 = { tailDb (lockedDb s.1 q ps) { q with state := .pending } ps (mq.hash + 1) .paid with
+                      mintQ := updMintQ s.1.mintQ mq.id .paid }) ∨
+           (r = .error (2, "ln") ∧ s'.1 = tailDb (lockedDb s.1 q ps) { q with state := .pending } ps 0 .unpaid))))) := by
+  obtain ⟨db, ln⟩ := s
+  prog_simp [meltTokens] at h
+  cases hq : dbGetMeltQ db qid with
+  | error e => simp only [hq] at h; left; cases h; exact ⟨_, rfl, rfl⟩
+  | ok q =>
+    simp only [hq] at h
+    prog_simp [runM_verifyProofs_bind] at h
+    split at h; · left; cases h; exact ⟨_, rfl, rfl⟩
+    split at h; · left; cases h; exact ⟨_, rfl, rfl⟩
+    rename_i hnp hnpe
+    split at h
+    rotate_left; · left; cases h; exact ⟨_, rfl, rfl⟩
+    rename_i u hver
+    split at h; · left; cases h; exact ⟨_, rfl, rfl⟩
+    split at h; · left; cases h; exact ⟨_, rfl, rfl⟩
+    rename_i henough hsa
+    split at h
+    rotate_left; · left; cases h; exact ⟨_, rfl, rfl⟩
+    rename_i t hlock
+    obtain ⟨_, _, hany⟩ := dbGetMeltQ_ok hq
+    obtain ⟨ht, hnd, hfreshP, _⟩ := insertRows_some hlock
+    have hdist : (ps.map (·.secret)).Nodup := by
+      simpa [Proof.row, List.map_map, Function.comp_def] using hnd
+    have hun : q.state = .unpaid := by
+      cases hs : q.state <;> simp_all
+    obtain ⟨_, _, hfreshS, _, hgate⟩ := verifySpec_ok_fresh (by cases u; exact hver)
+    have hacc : MeltAccepted cx qid ps (db, ln) q :=
+      ⟨hq, hun, by cases u; exact hver, henough, by simpa using hsa, hdist⟩
+    have hspent : insertRows db.spent (ps.map Proof.row) = some (db.spent ++ ps.map Proof.row) := by
+      apply insertRows_of
+      · simpa [Proof.row, List.map_map, Function.comp_def] using hdist
+      · intro r hr
+        obtain ⟨p, hp, rfl⟩ := List.mem_map.1 hr
+        exact hfreshS p hp
+      · exact gateAll_not_high hgate
+    simp only [hany, if_true] at h
+    have htl : t = (lockedDb db q ps).pending := by simp [lockedDb, lockRows, ht]
+    right
+    refine ⟨q, hacc, ?_⟩
+    have hanyL : (lockedDb db q ps).meltQ.any (·.id == ({ q with state := LQState.pending } : MeltQ).id) = true := by
+      simp only [lockedDb, any_updMeltQ]; exact hany
+    cases hmq : dbGetMintQByHash db q.hash with
+    | ok mq =>
+      right
+      refine ⟨mq, rfl, ?_⟩
+      simp only [dbGetMintQByHash_upd, hmq] at h
+      obtain ⟨_, _, hmqany⟩ := dbGetMintQByHash_ok hmq
+      have := meltInternal_runM { q with state := .pending } ps mq (lockedDb db q ps) ln hanyL hmqany hspent
+      rw [htl] at h
+      change runM (meltInternal _ ps mq) (lockedDb db q ps, ln) = (s', r) at h
+      rw [h] at this
+      rcases this with ⟨_, h1, h2⟩ | ⟨_, h1, h2⟩
+      · right; exact ⟨h2, h1⟩
+      · left; exact ⟨h2, h1⟩
+    | error e =>
+      left
+      refine ⟨⟨e, rfl⟩, ?_⟩
+      simp only [dbGetMintQByHash_upd, hmq] at h
+      rw [htl] at h
+      split at h
+      · prog_simp [runM_pure] at h
+        have := meltAfterPay_runM { q with state := .pending } ps (popScript ln).2 (lockedDb db q ps)
+          (lnPop ln (fun a => ⟨"PayPartialAmount", q.inv, if q.amountMsat == 0 then invMsat ln q.inv else q.amountMsat, q.feeReserve, a.str⟩)) hanyL hspent
+        change runM (meltAfterPay _ ps _) (lockedDb db q ps, _) = (s', r) at h
+        rw [h, popScript_lnPop] at this
+        exact ⟨this.2, this.1⟩
+      · prog_simp [runM_pure] at h
+        have := meltAfterPay_runM { q with state := .pending } ps (popScript ln).2 (lockedDb db q ps)
+          (lnPop ln (fun a => ⟨"SendPayment", q.inv, invMsat ln q.inv, q.feeReserve, a.str⟩)) hanyL hspent
+        change runM (meltAfterPay _ ps _) (lockedDb db q ps, _) = (s', r) at h
+        rw [h, popScript_lnPop] at this
+        exact ⟨this.2, this.1⟩
 
 
 end Gonuts.Model.Mint
